@@ -141,7 +141,7 @@ func overlayFiles(id string, s *spec) map[string]string {
 		filepath.Join(repoModule, "zz_verif/verif/verif.go"): filepath.Join(verifRoot, "harness/verif/verif.go"),
 	}
 	for _, f := range s.Files {
-		m[filepath.Join(repoModule, s.Pkg, "zz_verif_"+strings.ToLower(id)+"_"+f)] = filepath.Join(verifRoot, "harness", id, f)
+		m[filepath.Join(repoModule, s.Pkg, "zz_verif_"+strings.ToLower(id)+"_"+filepath.Base(f))] = filepath.Join(verifRoot, "harness", id, f)
 	}
 	return m
 }
